@@ -47,6 +47,11 @@ def run(ctx: Ctx):
               ' (R-C04-9), atomic test-then-wait (R-C04-14); end-of-stream raises'
               ' the recorded failure and marks the queue exhausted (R-C04-6)',
               _c04_shared, m, min_instances=15)
+  ctx.include('R-C05-12', '"with a timeout configured a starved get or put raises a timeout error instead of blocking" for BOTH'
+              ' buffer kinds: every handler that turns the buffer\'s "no room / nothing there" signal into a wait names the'
+              ' queue.* and the asyncio.* exception of THAT operation (R-C04-16; module-level tuple aliases are expanded) —'
+              ' a put() that does not recognise asyncio.QueueFull raises it at once instead of waiting, and the producer'
+              ' records it as a failure of the stream', c04.r16, m, min_instances=4)
 
 
 def _c04_shared(sub, m):
@@ -798,7 +803,7 @@ def r11(ctx: Ctx, m):
       if not calls:
         continue
       for h in t.handlers:
-        types = [] if h.type is None else ([unparse(e) for e in h.type.elts] if isinstance(h.type, ast.Tuple) else [unparse(h.type)])
+        types = cfgm.handler_type_names(h)      # module-level tuple aliases expanded
         if not any(ty.endswith(('Empty', 'QueueEmpty')) for ty in types):
           continue
         n += 1
